@@ -242,8 +242,13 @@ def main(argv, here, repo):
     unrepro = 0
     matched = []
     rdir = os.path.join(os.environ.get("VERIF_REPLAY_DIR") or os.path.join(here, "replays"), prop_id)
+    considered = 0
     for sig, f in by_sig.items():
         kf = [k for k in known if k.get("sig") == sig]
+        if not kf:
+            considered += 1
+            if considered > MAX_REPORTED + 2:
+                continue  # further signatures are not confirmed/written out (the lightest come first)
         os.makedirs(rdir, exist_ok=True)
         path = os.path.join(rdir, short_hash([f["kind"], f["payload"]]) + ".json")
         with open(path, "w") as fh:
@@ -260,7 +265,8 @@ def main(argv, here, repo):
         if kf:
             matched.append(sig)
             os.remove(path)
-            print(f"KNOWN-FINDING: property={prop_id} {kf[0]['text']}")
+            txt = " ".join(t for t in kf[0]["text"].split() if not t.startswith("property="))
+            print(f"KNOWN-FINDING: property={prop_id} {txt}")
             continue
         n_viol += 1
         if n_viol <= MAX_REPORTED:
